@@ -1115,6 +1115,7 @@ func run(c *core.Ctx) {
 		Env:     []string{"GOMAXPROCS=1", "GOGC=400"}, // 16 single-threaded workers: concurrent GC helpers only fight for the cores
 		Args:    []string{strconv.FormatInt(c.Deadline.UnixNano(), 10)},
 		Silence: 60 * time.Second,
+		Confirm: 2, // deterministic code: two lone re-runs are enough to call a death reproducible
 		OnRecord: func(shard int, rec json.RawMessage) {
 			var s summary
 			if err := json.Unmarshal(rec, &s); err != nil {
